@@ -4,7 +4,9 @@
 (*   [id, trace : << effect, ... >>]                                         *)
 (* an effect is what harness/interpose.py observed below zorg, in program     *)
 (* order:  <<"commit","db">>  <<"w", page | "hash" | "wl" | "ids">>           *)
-(* <<"unlink","ka">>  <<"exit", "ok" | "error">>  and, for each start of the  *)
+(* <<"unlink","ka" | "db">>  <<"exit", "ok" | "error">>; inputs are logged as  *)
+(* <<"start", "edit" | "reindex" | "create">>, <<"user", edits>> (pages edited  *)
+(* while no process runs) and, for each start of the                            *)
 (* editor, <<"vim", paths, focus, edits, keep-alive>> where edits / keep-alive*)
 (* are what the scripted user did in that session (inputs, not effects).      *)
 (* Every step is one Bus action whose `out` is the next piece of the trace.   *)
